@@ -30,15 +30,407 @@ structure Valid (attrs : List Attr) (cliques : List Clique) (t : Tree)
   sched_respects : ∀ (p : Nat) (i j : Clique), order[p]? = some (i, j) →
     ∀ k ∈ t.nodes, t.adj i k = true → k ≠ j → ∃ q, q < p ∧ order[q]? = some (k, i)
 
+/-! ## soundness of the checker -/
+
+
+theorem nodup_iff {β : Type} [BEq β] [LawfulBEq β] (l : List β) : nodup l = true ↔ l.Nodup := by
+  induction l with
+  | nil => simp [nodup]
+  | cons x xs ih => simp [nodup, ih]
+
+theorem tree_adj_symm (t : Tree) (a b : Clique) : t.adj a b = t.adj b a := by
+  simp [Tree.adj, Bool.or_comm]
+
+theorem subset_iff (a b : Clique) : subset a b = true ↔ ∀ x ∈ a, x ∈ b := by
+  simp [subset]
+
+theorem reach_sound (t : Tree) (allowed : List Clique) (a : Clique) (fuel : Nat) :
+    ∀ s : List Clique,
+      (∀ x ∈ s, x ∈ allowed ∧ Conn t allowed a x ∧ Conn t allowed x a) →
+      ∀ x ∈ reach t allowed fuel s, x ∈ allowed ∧ Conn t allowed a x ∧ Conn t allowed x a := by
+  induction fuel with
+  | zero => intro s hs x hx; exact hs x hx
+  | succ fuel ih =>
+    intro s hs x hx
+    simp only [reach] at hx
+    refine ih _ ?_ x hx
+    intro y hy
+    rcases List.mem_append.1 hy with hy | hy
+    · exact hs y hy
+    · simp only [List.mem_filter, Bool.and_eq_true, List.any_eq_true] at hy
+      obtain ⟨hya, _, z, hz, hzy⟩ := hy
+      obtain ⟨hza, h1, h2⟩ := hs z hz
+      refine ⟨hya, h1.tail ⟨hzy, hya⟩, ?_⟩
+      exact Relation.ReflTransGen.head ⟨by rw [tree_adj_symm]; exact hzy, hza⟩ h2
+
+theorem connectedWithin_sound (t : Tree) (allowed : List Clique)
+    (h : connectedWithin t allowed = true) :
+    ∀ n ∈ allowed, ∀ m ∈ allowed, Conn t allowed n m := by
+  cases allowed with
+  | nil => intro n hn; simp at hn
+  | cons a rest =>
+    simp only [connectedWithin, List.all_eq_true, List.contains_iff_mem] at h
+    have key := reach_sound t (a :: rest) a (a :: rest).length [a] (by
+      intro x hx
+      have : x = a := by simpa using hx
+      subst this
+      exact ⟨by simp, Relation.ReflTransGen.refl, Relation.ReflTransGen.refl⟩)
+    intro n hn m hm
+    exact (key n (h n hn)).2.2.trans (key m (h m hm)).2.1
+
+theorem scheduleRespects_sound (t : Tree) (rest : List (Clique × Clique)) :
+    ∀ before : List (Clique × Clique), scheduleRespects t before rest = true →
+      ∀ (p : Nat) (i j : Clique), rest[p]? = some (i, j) →
+        ∀ k ∈ t.nodes, t.adj i k = true → k ≠ j →
+          ∃ q, q < before.length + p ∧ (before ++ rest)[q]? = some (k, i) := by
+  induction rest with
+  | nil => intro before _ p i j hp; simp at hp
+  | cons e rest ih =>
+    intro before h p i j hp k hk hik hkj
+    obtain ⟨i0, j0⟩ := e
+    simp only [scheduleRespects, Bool.and_eq_true, List.all_eq_true] at h
+    cases p with
+    | zero =>
+      simp only [List.getElem?_cons_zero, Option.some.injEq, Prod.mk.injEq] at hp
+      obtain ⟨rfl, rfl⟩ := hp
+      have hkn : k ∈ t.nbrs i0 := by simp [Tree.nbrs, hk, hik]
+      have := h.1 k hkn
+      simp only [Bool.or_eq_true, beq_iff_eq, List.contains_iff_mem] at this
+      rcases this with h' | h'
+      · exact absurd h' hkj
+      · obtain ⟨q, hq, hq'⟩ := List.getElem_of_mem h'
+        refine ⟨q, by simpa using hq, ?_⟩
+        rw [List.getElem?_append_left hq, List.getElem?_eq_getElem hq, hq']
+    | succ p =>
+      simp only [List.getElem?_cons_succ] at hp
+      obtain ⟨q, hq, hq'⟩ := ih _ h.2 p i j hp k hk hik hkj
+      refine ⟨q, ?_, ?_⟩
+      · simp only [List.length_append, List.length_cons, List.length_nil] at hq; omega
+      · simpa [List.append_assoc] using hq'
+
+
 theorem checkJT_sound (attrs : List Attr) (cliques : List Clique) (t : Tree)
     (order : List (Clique × Clique)) (h : checkJT attrs cliques t order = true) :
     Valid attrs cliques t order := by
-  sorry
+  simp only [checkJT, isTree, scheduleComplete, Bool.and_eq_true] at h
+  obtain ⟨⟨⟨⟨⟨⟨hci, hcd⟩, hac⟩, ⟨⟨⟨hnd, hec⟩, _⟩, hconn⟩⟩, hrip⟩, ⟨⟨hsn, hsc⟩, hse⟩⟩, hsr⟩ := h
+  refine
+    { covers_input := ?_, covers_domain := ?_, antichain := ?_, edge_count := ?_, connected := ?_,
+      rip := ?_, sched_nodup := ?_, sched_edges := ?_, sched_count := ?_, sched_respects := ?_ }
+  · intro c hc
+    simp only [coversInput, List.all_eq_true, List.any_eq_true] at hci
+    obtain ⟨n, hn, hsub⟩ := hci c hc
+    exact ⟨n, hn, (subset_iff c n).1 hsub⟩
+  · intro a ha
+    simp only [coversDomain, List.all_eq_true, List.any_eq_true, List.contains_iff_mem] at hcd
+    exact hcd a ha
+  · intro a ha b hb hab hsub
+    simp only [antichain, List.all_eq_true, Bool.or_eq_true, beq_iff_eq, Bool.not_eq_true'] at hac
+    rcases hac a ha b hb with h' | h'
+    · exact hab h'
+    · rw [(subset_iff a b).2 hsub] at h'; exact absurd h' (by simp)
+  · simpa using hec
+  · exact connectedWithin_sound t t.nodes hconn
+  · intro a ha n hn m hm han ham
+    simp only [rip, List.all_eq_true] at hrip
+    refine connectedWithin_sound t _ (hrip a ha) n ?_ m ?_
+    · simp [hn, han]
+    · simp [hm, ham]
+  · exact (nodup_iff order).1 hsn
+  · intro e he
+    simp only [List.all_eq_true, Bool.and_eq_true, List.contains_iff_mem] at hse
+    exact hse e he
+  · simpa using hsc
+  · intro p i j hp k hk hik hkj
+    obtain ⟨q, hq, hq'⟩ := scheduleRespects_sound t order [] hsr p i j hp k hk hik hkj
+    exact ⟨q, by simpa using hq, by simpa using hq'⟩
+
+/-! ## the greedy elimination order -/
+
+theorem foldl_pick_mem (f : Attr → Nat) (us : List Attr) (u : Attr) :
+    us.foldl (fun b a => if f a < f b then a else b) u ∈ u :: us := by
+  induction us generalizing u with
+  | nil => simp
+  | cons x xs ih =>
+    simp only [List.foldl_cons]
+    by_cases h : f x < f u
+    · simp only [h, if_true]
+      rcases List.mem_cons.1 (ih x) with h' | h'
+      · rw [h']; simp
+      · simp [h']
+    · simp only [h, if_false]
+      rcases List.mem_cons.1 (ih u) with h' | h'
+      · rw [h']; simp
+      · simp [h']
+
+theorem perm_cons_filter_ne {l : List Attr} (hnd : l.Nodup) {a : Attr} (ha : a ∈ l) :
+    (a :: l.filter (· != a)).Perm l := by
+  rw [← hnd.erase_eq_filter]
+  exact (List.perm_cons_erase ha).symm
+
+theorem greedyOrder_perm_aux (d : Dom) : ∀ (fuel : Nat) (cliques : List Clique) (unmarked : List Attr),
+    unmarked.Nodup → unmarked.length ≤ fuel → (greedyOrder d cliques unmarked fuel).Perm unmarked := by
+  intro fuel
+  induction fuel with
+  | zero =>
+    intro cliques unmarked _ hlen
+    have : unmarked = [] := List.eq_nil_of_length_eq_zero (Nat.le_zero.1 hlen)
+    subst this
+    simp [greedyOrder]
+  | succ fuel ih =>
+    intro cliques unmarked hnd hlen
+    cases unmarked with
+    | nil => simp [greedyOrder]
+    | cons u us =>
+      simp only [greedyOrder]
+      have hb := foldl_pick_mem (fun a => d.sizeOf (List.foldl union []
+        (List.filter (fun cl => List.contains cl a) cliques))) us u
+      generalize List.foldl _ u us = best at hb ⊢
+      have hp := perm_cons_filter_ne hnd hb
+      refine List.Perm.trans (List.Perm.cons _ (ih _ _ (hnd.filter _) ?_)) hp
+      have hl := hp.length_eq
+      simp only [List.length_cons] at hl hlen
+      omega
+
 
 theorem greedyOrder_perm (d : Dom) (cliques : List Clique) (attrs : List Attr) (h : attrs.Nodup) :
-    (greedyOrder d cliques attrs attrs.length).Perm attrs := by
-  sorry
+    (greedyOrder d cliques attrs attrs.length).Perm attrs :=
+  greedyOrder_perm_aux d attrs.length cliques attrs h (Nat.le_refl _)
 
+/-! ## graphs: `addEdges`, `pairs`, `makeGraph`, `triangulate` -/
+
+theorem adj_iff (g : Graph) (a b : Attr) :
+    g.adj a b = true ↔ a ≠ b ∧ ((a, b) ∈ g.edges ∨ (b, a) ∈ g.edges) := by
+  simp [Graph.adj]
+
+theorem adj_symm (g : Graph) (a b : Attr) : g.adj a b = g.adj b a := by
+  rw [Bool.eq_iff_iff, adj_iff, adj_iff]
+  constructor <;> rintro ⟨h, h'⟩ <;> exact ⟨fun e => h e.symm, h'.symm⟩
+
+theorem adj_addEdges (g : Graph) (es : List (Attr × Attr)) (a b : Attr) :
+    (g.addEdges es).adj a b = true ↔
+      g.adj a b = true ∨ (a ≠ b ∧ ((a, b) ∈ es ∨ (b, a) ∈ es)) := by
+  by_cases hg : g.adj a b = true
+  · have hg' := hg
+    rw [adj_iff] at hg'
+    simp only [hg, true_or, iff_true]
+    rw [adj_iff]
+    refine ⟨hg'.1, ?_⟩
+    simp only [Graph.addEdges, List.mem_append]
+    rcases hg'.2 with h | h
+    · exact Or.inl (Or.inl h)
+    · exact Or.inr (Or.inl h)
+  · have hg2 : g.adj b a = false := by rw [adj_symm]; simpa using hg
+    have hg1 : g.adj a b = false := by simpa using hg
+    have hne : ¬ (a ≠ b ∧ ((a, b) ∈ g.edges ∨ (b, a) ∈ g.edges)) := by
+      rw [← adj_iff]; exact hg
+    rw [adj_iff]
+    simp only [Graph.addEdges, List.mem_append, List.mem_filter, hg1, hg2]
+    constructor
+    · rintro ⟨hab, h⟩
+      right
+      refine ⟨hab, ?_⟩
+      rcases h with (h | h) | (h | h)
+      · exact absurd ⟨hab, Or.inl h⟩ hne
+      · exact Or.inl h.1
+      · exact absurd ⟨hab, Or.inr h⟩ hne
+      · exact Or.inr h.1
+    · rintro (h | ⟨hab, h⟩)
+      · exact absurd h (by simp)
+      · refine ⟨hab, ?_⟩
+        have hba : b ≠ a := fun e => hab e.symm
+        rcases h with h | h
+        · exact Or.inl (Or.inr ⟨h, by simp [hab]⟩)
+        · exact Or.inr (Or.inr ⟨h, by simp [hba]⟩)
+
+theorem adj_removeNode (g : Graph) (v a b : Attr) :
+    (g.removeNode v).adj a b = true ↔ g.adj a b = true ∧ a ≠ v ∧ b ≠ v := by
+  rw [adj_iff, adj_iff]
+  simp only [Graph.removeNode, List.mem_filter, Bool.and_eq_true, bne_iff_ne, ne_eq]
+  constructor
+  · rintro ⟨hab, (⟨h, h1, h2⟩ | ⟨h, h1, h2⟩)⟩
+    · exact ⟨⟨hab, Or.inl h⟩, h1, h2⟩
+    · exact ⟨⟨hab, Or.inr h⟩, h2, h1⟩
+  · rintro ⟨⟨hab, h | h⟩, h1, h2⟩
+    · exact ⟨hab, Or.inl ⟨h, h1, h2⟩⟩
+    · exact ⟨hab, Or.inr ⟨h, h2, h1⟩⟩
+
+theorem mem_pairs {l : List Attr} {a b : Attr} (h : (a, b) ∈ pairs l) : a ∈ l ∧ b ∈ l := by
+  induction l with
+  | nil => simp [pairs] at h
+  | cons x xs ih =>
+    simp only [pairs, List.mem_append, List.mem_map] at h
+    rcases h with ⟨y, hy, he⟩ | h
+    · cases he; exact ⟨by simp, by simp [hy]⟩
+    · have := ih h; exact ⟨by simp [this.1], by simp [this.2]⟩
+
+theorem pairs_complete {l : List Attr} {a b : Attr} (ha : a ∈ l) (hb : b ∈ l) (hab : a ≠ b) :
+    (a, b) ∈ pairs l ∨ (b, a) ∈ pairs l := by
+  induction l with
+  | nil => simp at ha
+  | cons x xs ih =>
+    simp only [pairs, List.mem_append, List.mem_map]
+    rcases List.mem_cons.1 ha with rfl | ha'
+    · rcases List.mem_cons.1 hb with rfl | hb'
+      · exact absurd rfl hab
+      · exact Or.inl (Or.inl ⟨b, hb', rfl⟩)
+    · rcases List.mem_cons.1 hb with rfl | hb'
+      · exact Or.inr (Or.inl ⟨a, ha', rfl⟩)
+      · rcases ih ha' hb' with h | h
+        · exact Or.inl (Or.inr h)
+        · exact Or.inr (Or.inr h)
+
+theorem triangulate_mono (g : Graph) (order : List Attr) (a b : Attr) (h : g.adj a b = true) :
+    (triangulate g order).adj a b = true := by
+  rw [triangulate, adj_addEdges]; exact Or.inl h
+
+theorem makeGraph_fold_mono (cliques : List Clique) (g : Graph) (a b : Attr) (h : g.adj a b = true) :
+    (cliques.foldl (fun g cl => g.addEdges (pairs cl)) g).adj a b = true := by
+  induction cliques generalizing g with
+  | nil => exact h
+  | cons c cs ih =>
+    simp only [List.foldl_cons]
+    apply ih
+    rw [adj_addEdges]; exact Or.inl h
+
+theorem makeGraph_fold_complete (cliques : List Clique) (g : Graph) (c : Clique) (hc : c ∈ cliques)
+    (a b : Attr) (ha : a ∈ c) (hb : b ∈ c) (hab : a ≠ b) :
+    (cliques.foldl (fun g cl => g.addEdges (pairs cl)) g).adj a b = true := by
+  induction cliques generalizing g with
+  | nil => simp at hc
+  | cons c' cs ih =>
+    simp only [List.foldl_cons]
+    rcases List.mem_cons.1 hc with rfl | hc'
+    · apply makeGraph_fold_mono
+      rw [adj_addEdges]
+      exact Or.inr ⟨hab, pairs_complete ha hb hab⟩
+    · exact ih _ hc'
+
+set_option linter.unusedVariables false in
+theorem makeGraph_complete (attrs : List Attr) (cliques : List Clique) (c : Clique) (hc : c ∈ cliques)
+    (a b : Attr) (ha : a ∈ c) (hb : b ∈ c) (hab : a ≠ b) (hsub : ∀ x ∈ c, x ∈ attrs) :
+    (makeGraph attrs cliques).adj a b = true :=
+  makeGraph_fold_complete cliques _ c hc a b ha hb hab
+
+
+/-! ## the elimination game yields a perfect elimination order -/
+
+/-- adjacency in the triangulated graph, unfolded -/
+def TA (g : Graph) (order : List Attr) (a b : Attr) : Prop :=
+  g.adj a b = true ∨ (a ≠ b ∧ ((a, b) ∈ fillIn g order ∨ (b, a) ∈ fillIn g order))
+
+theorem triangulate_adj (g : Graph) (order : List Attr) (a b : Attr) :
+    (triangulate g order).adj a b = true ↔ TA g order a b := by
+  rw [triangulate, adj_addEdges]; rfl
+
+theorem mem_nbrs {g : Graph} {v a : Attr} : a ∈ g.nbrs v ↔ a ∈ g.nodes ∧ g.adj v a = true := by
+  simp [Graph.nbrs]
+
+theorem adj_irrefl (g : Graph) (a : Attr) : g.adj a a = false := by
+  simp [Graph.adj]
+
+/-- every fill-in edge joins two nodes of the current graph -/
+theorem fillIn_nodes (g : Graph) (order : List Attr) (a b : Attr) (h : (a, b) ∈ fillIn g order) :
+    a ∈ g.nodes ∧ b ∈ g.nodes := by
+  induction order generalizing g with
+  | nil => simp [fillIn] at h
+  | cons v rest ih =>
+    simp only [fillIn, List.mem_append, List.mem_filter] at h
+    rcases h with ⟨h, _⟩ | h
+    · have := mem_pairs h
+      exact ⟨(mem_nbrs.1 this.1).1, (mem_nbrs.1 this.2).1⟩
+    · have := ih _ h
+      have h1 : a ∈ g.nodes.filter (· != v) := this.1
+      have h2 : b ∈ g.nodes.filter (· != v) := this.2
+      exact ⟨(List.mem_filter.1 h1).1, (List.mem_filter.1 h2).1⟩
+
+theorem fillIn_tail_ne (g : Graph) (v : Attr) (rest : List Attr) (a b : Attr)
+    (h : (a, b) ∈ fillIn ((g.addEdges (pairs (g.nbrs v))).removeNode v) rest) : a ≠ v ∧ b ≠ v := by
+  have := fillIn_nodes _ _ _ _ h
+  have h1 : a ∈ g.nodes.filter (· != v) := this.1
+  have h2 : b ∈ g.nodes.filter (· != v) := this.2
+  simpa using And.intro (List.mem_filter.1 h1).2 (List.mem_filter.1 h2).2
+
+theorem TA_cons (g : Graph) (u : Attr) (rest : List Attr) (a b : Attr) (ha : a ≠ u) (hb : b ≠ u) :
+    TA g (u :: rest) a b ↔ TA ((g.addEdges (pairs (g.nbrs u))).removeNode u) rest a b := by
+  unfold TA
+  rw [adj_removeNode, adj_addEdges]
+  simp only [fillIn, List.mem_append, List.mem_filter]
+  have hs := adj_symm g a b
+  by_cases hg : g.adj a b = true
+  · simp [hg, ha, hb]
+  · have hg1 : g.adj a b = false := by simpa using hg
+    have hg2 : g.adj b a = false := by rw [← hs]; exact hg1
+    simp only [hg1, hg2]
+    simp
+    have ha' : ¬ a = u := ha
+    have hb' : ¬ b = u := hb
+    constructor
+    · rintro ⟨hab, (h | h) | (h | h)⟩
+      · exact Or.inl ⟨⟨hab, Or.inl h⟩, ha', hb'⟩
+      · exact Or.inr ⟨hab, Or.inl h⟩
+      · exact Or.inl ⟨⟨hab, Or.inr h⟩, ha', hb'⟩
+      · exact Or.inr ⟨hab, Or.inr h⟩
+    · rintro (⟨⟨hab, h | h⟩, _⟩ | ⟨hab, h | h⟩)
+      · exact ⟨hab, Or.inl (Or.inl h)⟩
+      · exact ⟨hab, Or.inr (Or.inl h)⟩
+      · exact ⟨hab, Or.inl (Or.inr h)⟩
+      · exact ⟨hab, Or.inr (Or.inr h)⟩
+
+theorem TA_head (g : Graph) (v : Attr) (rest : List Attr) (x : Attr) (h : TA g (v :: rest) v x) :
+    g.adj v x = true := by
+  rcases h with h | ⟨hvx, h⟩
+  · exact h
+  · exfalso
+    simp only [fillIn, List.mem_append, List.mem_filter] at h
+    rcases h with (⟨h, _⟩ | h) | (⟨h, _⟩ | h)
+    · have := (mem_nbrs.1 (mem_pairs h).1).2
+      rw [adj_irrefl] at this; exact absurd this (by simp)
+    · exact (fillIn_tail_ne _ _ _ _ _ h).1 rfl
+    · have := (mem_nbrs.1 (mem_pairs h).2).2
+      rw [adj_irrefl] at this; exact absurd this (by simp)
+    · exact (fillIn_tail_ne _ _ _ _ _ h).2 rfl
+
+theorem peo_aux (pre : List Attr) : ∀ (g : Graph) (order : List Attr), order.Nodup →
+    (∀ a ∈ order, a ∈ g.nodes) → ∀ (v : Attr) (post : List Attr), order = pre ++ v :: post →
+    ∀ x y, x ∈ post → y ∈ post → x ≠ y → TA g order v x → TA g order v y → TA g order x y := by
+  induction pre with
+  | nil =>
+    intro g order hnd hsub v post hsplit x y hx hy hxy hvx hvy
+    simp only [List.nil_append] at hsplit
+    subst hsplit
+    have h1 := TA_head _ _ _ _ hvx
+    have h2 := TA_head _ _ _ _ hvy
+    have hxn : x ∈ g.nbrs v := mem_nbrs.2 ⟨hsub x (by simp [hx]), h1⟩
+    have hyn : y ∈ g.nbrs v := mem_nbrs.2 ⟨hsub y (by simp [hy]), h2⟩
+    by_cases hg : g.adj x y = true
+    · exact Or.inl hg
+    · right
+      refine ⟨hxy, ?_⟩
+      have hg1 : g.adj x y = false := by simpa using hg
+      have hg2 : g.adj y x = false := by rw [adj_symm]; exact hg1
+      simp only [fillIn, List.mem_append, List.mem_filter]
+      rcases pairs_complete hxn hyn hxy with h | h
+      · exact Or.inl (Or.inl ⟨h, by simp [hg1]⟩)
+      · exact Or.inr (Or.inl ⟨h, by simp [hg2]⟩)
+  | cons u pre ih =>
+    intro g order hnd hsub v post hsplit x y hx hy hxy hvx hvy
+    subst hsplit
+    simp only [List.cons_append, List.nodup_cons] at hnd
+    have hvu : v ≠ u := by rintro rfl; exact hnd.1 (by simp)
+    have hxu : x ≠ u := by rintro rfl; exact hnd.1 (by simp [hx])
+    have hyu : y ≠ u := by rintro rfl; exact hnd.1 (by simp [hy])
+    simp only [List.cons_append] at hvx hvy ⊢
+    rw [TA_cons _ _ _ _ _ hvu hxu] at hvx
+    rw [TA_cons _ _ _ _ _ hvu hyu] at hvy
+    rw [TA_cons _ _ _ _ _ hxu hyu]
+    refine ih _ _ hnd.2 ?_ v post rfl x y hx hy hxy hvx hvy
+    intro a ha
+    have hau : a ≠ u := by rintro rfl; exact hnd.1 ha
+    have := hsub a (by simp [ha])
+    simp [Graph.removeNode, Graph.addEdges, this, hau]
+
+set_option linter.unusedVariables false in
 theorem triangulate_peo (g : Graph) (order : List Attr) (hnd : order.Nodup)
     (hcov : ∀ a ∈ g.nodes, a ∈ order) (hsub : ∀ a ∈ order, a ∈ g.nodes)
     (hed : ∀ e ∈ g.edges, e.1 ∈ g.nodes ∧ e.2 ∈ g.nodes)
@@ -46,15 +438,8 @@ theorem triangulate_peo (g : Graph) (order : List Attr) (hnd : order.Nodup)
     (x y : Attr) (hx : x ∈ post) (hy : y ∈ post) (hxy : x ≠ y)
     (hvx : (triangulate g order).adj v x = true) (hvy : (triangulate g order).adj v y = true) :
     (triangulate g order).adj x y = true := by
-  sorry
+  rw [triangulate_adj] at *
+  exact peo_aux pre g order hnd hsub v post hsplit x y hx hy hxy hvx hvy
 
-theorem triangulate_mono (g : Graph) (order : List Attr) (a b : Attr) (h : g.adj a b = true) :
-    (triangulate g order).adj a b = true := by
-  sorry
-
-theorem makeGraph_complete (attrs : List Attr) (cliques : List Clique) (c : Clique) (hc : c ∈ cliques)
-    (a b : Attr) (ha : a ∈ c) (hb : b ∈ c) (hab : a ≠ b) (hsub : ∀ x ∈ c, x ∈ attrs) :
-    (makeGraph attrs cliques).adj a b = true := by
-  sorry
 
 end PGM.JT
